@@ -18,8 +18,8 @@ CHECKS = {
         'triples including the position register after failures, both static flags at every node, and parse() outcomes, on '
         'a stratified enumeration {construct} x {restoring context} x {continuation} x all short inputs, text and bytes mode; '
         'the extracted specification judges the implementation directly (the search for a failing input).',
-   note=TB + 'Hypotheses of the theorem = the property\'s well-formedness: no Skip item that matches without consuming, '
-        'non-empty sequences/choices, rule bodies well formed. Byte literals in text-mode grammars are not generated.',
+   note=TB + 'Hypotheses of the theorem = the property\'s well-formedness: '
+        'non-empty choices, well-scoped lets, rule bodies well formed (the former hypothesis about Skip items that match without consuming went with the repair of that defect). Byte literals in text-mode grammars are not generated.',
    technique='Coq refinement proof (model of generated code vs PEG spec) + differential correspondence via extracted OCaml model',
    ref='DESIGN.md §6 C01'),
  'C02': dict(
@@ -84,12 +84,14 @@ CHECKS = {
    technique='Coq refinement proof (closure semantics of template calls) + differential correspondence and hand expansions',
    ref='DESIGN.md §6 C06'),
  'C07': dict(
-   text='Coq theorems on a machine model of _run (explicit stack of suspended generators, memo, value being sent, log of body '
-        'starts; rule bodies abstract interaction trees): C07_memo_transparent (the machine ends with exactly the triple of '
+   text='Coq theorems on a machine model of _run (explicit stack of suspended generators each with its memo key or None, memo, value '
+        'being sent, log of memoised body starts, count of unkeyed starts; rule bodies abstract interaction trees with memoised calls '
+        'and calls through an unhashable key, which run in a frame with key None and are neither stored nor looked up): C07_memo_transparent (the machine ends with exactly the triple of '
         'direct memo-free evaluation; memo entries are values of direct evaluation; a hit replays them), C07_at_most_once '
         '(NoDup of the body-start log under the exact no-left-recursion rank hypothesis), C07_bound (<= rules x (len+1)). '
         'Tied to /repo by driving the REAL _run of a generated module with scripted generator functions and comparing '
-        'result and body-start order with the extracted machine, and by counting evaluations per (rule, position) with '
+        'result, body-start order and number of unkeyed starts with the extracted machine (a third of the scripts make calls through '
+        'unhashable keys), and by counting evaluations per (rule, position) with '
         'wrappers around the generated _try_<rule> functions on grammar families whose un-memoised evaluation is exponential.',
    note=TB + 'identity (`is`) of replayed results and side effects of inline Python are observed on the implementation only.',
    technique='Coq proof on a state-machine model of the trampoline + differential execution of the real _run against the extracted machine',
@@ -197,8 +199,10 @@ CHECKS = {
         'callbacks last), C16_metadata_inherited / C16_metadata_own_kept, C16_chain_of_identities, C16_chain_keeps_metadata (ANY chain of '
         'callbacks that bring no metadata of their own: a result that is a parsed object carries the metadata of the node it stands '
         'for, whatever scalars, lists or copies lie in between; false of the shipped chain: C16_shipped_chain_refuted, repaired in '
-        '/repo). Specification streams on the implementation: callbacks returning equal-but-distinct copies (every object of the '
-        'result must be one the callback returned), node -> scalar -> fresh object (metadata), callback count. Correspondence: random trees x '
+        '/repo), C16_input_objects_untouched (metadata is only ever attached to a node made by the hand-over itself: whatever comes back '
+        'under an identity of the input is the callback\'s answer, untouched; false of the shipped rule: C16_shipped_hand_over_refuted, '
+        'repaired in /repo). Specification streams on the implementation: callbacks returning equal-but-distinct copies (no object of the '
+        'result may be an input node; result equal to the input; metadata of the node it stands for), node -> scalar -> fresh object (metadata), callback count. Correspondence: random trees x '
         'chains of 1-3 callbacks from a closed family (replace by fresh object with/without metadata, by scalar, by list, by a '
         '_replace copy, by an existing child), result tree with its identity relation to the input, metadata of every node, '
         'callback log, deep snapshot of the input before and after.',
